@@ -122,6 +122,33 @@ typedef struct {
 #define C10_FMT_IS_08X(fmt, i) ((fmt)[4 * (i)] == '%' && (fmt)[4 * (i) + 1] == '0' && (fmt)[4 * (i) + 2] == '8' && (fmt)[4 * (i) + 3] == 'X')
 #define C10_ARGSEL4(k, a0, a1, a2, a3) ((k) == 0 ? (a0) : (k) == 1 ? (a1) : (k) == 2 ? (a2) : (a3))
 
+/* string_printf with ONE conversion, executable model (ISO C 7.21.6.1, conversion X of an unsigned int): "%08X" = exactly 8 digits,
+ * zero-padded; "%X" = the minimal number of digits (at least one); any other format is outside the stub (assertion) */
+static inline void C10_string_printf_1(C10_hexstr* ret, const char* fmt, uint32_t a)
+{
+  int padded = fmt[0] == '%' && fmt[1] == '0' && fmt[2] == '8' && fmt[3] == 'X' && fmt[4] == 0;
+  int plain = fmt[0] == '%' && fmt[1] == 'X' && fmt[2] == 0;
+  __CPROVER_assert(padded || plain, "string_printf stub: single-conversion format is %08X or %X");
+  __CPROVER_assume(padded || plain);
+  unsigned skip = 0;                       /* leading zero digits dropped by %X (never the last digit) */
+  if (plain) {
+    if ((a >> 4) == 0) skip = 7; else if ((a >> 8) == 0) skip = 6; else if ((a >> 12) == 0) skip = 5; else if ((a >> 16) == 0) skip = 4;
+    else if ((a >> 20) == 0) skip = 3; else if ((a >> 24) == 0) skip = 2; else if ((a >> 28) == 0) skip = 1;
+  }
+  ret->size = 8 - skip;
+#define C10_P1(j) if ((j) >= skip) ret->data[(j) - skip] = C10_08X_CHAR(a, (j));
+  C10_P1(0) C10_P1(1) C10_P1(2) C10_P1(3) C10_P1(4) C10_P1(5) C10_P1(6) C10_P1(7)
+}
+/* ret += piece (piece: at most 8 characters) */
+static inline void C10_hexstr_append(C10_hexstr* ret, const C10_hexstr* piece)
+{
+  __CPROVER_assert(piece->size <= 8 && ret->size <= 64, "hex string stub capacity");
+  __CPROVER_assume(piece->size <= 8 && ret->size <= 64);
+#define C10_A1(j) if ((j) < piece->size) ret->data[ret->size + (j)] = piece->data[(j)];
+  C10_A1(0) C10_A1(1) C10_A1(2) C10_A1(3) C10_A1(4) C10_A1(5) C10_A1(6) C10_A1(7)
+  ret->size += piece->size;
+}
+
 void C10_string_printf_4(C10_hexstr* ret, const char* fmt, uint32_t a0, uint32_t a1, uint32_t a2, uint32_t a3)
 __CPROVER_requires(__CPROVER_w_ok(ret, sizeof(C10_hexstr)) && __CPROVER_r_ok(fmt, 17))
 __CPROVER_requires(C10_FMT_IS_08X(fmt, 0) && C10_FMT_IS_08X(fmt, 1) && C10_FMT_IS_08X(fmt, 2) && C10_FMT_IS_08X(fmt, 3) && fmt[16] == 0)
